@@ -20,45 +20,87 @@ CLAUSES = (
 
 def check(c):
     ap = c.func('task_state', 'TaskState._add_prerequisites')
-    sets = [n for n in c.idx.walk(ap.node) if isinstance(n, ast.Assign)
+    # all statements of the function and of new private helpers it alone
+    # calls; variable names are not assumed
+    nodes = [n for root in c.scope_nodes(ap) for n in c.idx.walk(root)]
+
+    def value_of(name, near):
+        """The single assigned value of a local in near's function."""
+        f = c.idx.owner(near)
+        defs = [d for d in c.idx.walk(f.node) if isinstance(d, ast.Assign)
+                and norm(d.targets[0]) == name]
+        return defs[0].value if len(defs) == 1 else None
+    sets = [n for n in nodes if isinstance(n, ast.Assign)
             and isinstance(n.targets[0], ast.Subscript)
-            and norm(n.targets[0].value) == 'cpre'
+            and isinstance(n.targets[0].slice, ast.Tuple)
+            and len(n.targets[0].slice.elts) == 3
+            and norm(n.targets[0].slice.elts[1]) == 'tdef.name'
+            and c.fold(n.targets[0].slice.elts[2]) == 'succeeded'
             and c.holds(n, 'tdef.sequential')]
     c.exactly('C31.prev-prereq', 'implicit prerequisite item', len(sets), 1)
     for n in sets:
-        key = norm(n.targets[0].slice)
-        c.ob('C31.prev-prereq', c.key(n, ap)[:100] + ' key (p_prev, own name, '
-             'succeeded)', key in (
-                 '(p_prev, tdef.name, TASK_STATUS_SUCCEEDED)',
-                 'p_prev, tdef.name, TASK_STATUS_SUCCEEDED'), c.where(n, ap),
-             key)
-        c.ob('C31.prev-prereq', c.key(n, ap)[:100] + ' pre-satisfied only '
-             'before the start point', norm(n.value) ==
-             'p_prev < tdef.start_point', c.where(n, ap), norm(n.value))
-        c.guard('C31.prev-prereq', n, ['tdef.sequential', 'adjusted'], ap)
-        # registered among the task's prerequisites
-        c.post('C31.prev-prereq', ap, n, lambda s: isinstance(
-            s, ast.Assign) and norm(s.targets[0]) ==
-            'prerequisites[cpre.instantaneous_hash()]' and norm(
-            s.value) == 'cpre', 'registered in prerequisites')
-    pp = [n for n in c.idx.walk(ap.node) if isinstance(n, ast.Assign)
-          and norm(n.targets[0]) == 'p_prev']
-    c.ob('C31.prev-prereq', f'{ap.fq} :: p_prev = max(adjusted)',
-         len(pp) == 1 and norm(pp[0].value) == 'max(adjusted)',
-         c.where(ap.node, ap), '')
-    apps = c.find(ap, 'adjusted.append(prv)')
-    for n in apps:
-        c.guard('C31.prev-prereq', n, ['prv'], ap)
-        lp = c.idx.parent[id(c.idx.parent[id(c.idx.stmt_of(n))])]
-        c.ob('C31.prev-prereq', c.key(n, ap) + ' over all sequences',
-             isinstance(lp, ast.For) and norm(lp.iter) == 'tdef.sequences',
-             c.where(n, ap), '')
-    pv = [n for n in c.idx.walk(ap.node) if isinstance(n, ast.Assign)
-          and norm(n.targets[0]) == 'prv']
-    c.ob('C31.prev-prereq', f'{ap.fq} :: prv = '
-         'seq.get_nearest_prev_point(point)', len(pv) == 1 and norm(
-             pv[0].value) == 'seq.get_nearest_prev_point(point)',
-         c.where(ap.node, ap), '')
+        f = c.idx.owner(n)
+        pvar = norm(n.targets[0].slice.elts[0])
+        cvar = norm(n.targets[0].value)
+        v = n.value
+        if isinstance(v, ast.Name) and value_of(v.id, n) is not None:
+            v = value_of(v.id, n)
+        c.ob('C31.prev-prereq', c.key(n, f)[:100] + ' pre-satisfied only '
+             'before the start point', norm(v) ==
+             f'{pvar} < tdef.start_point', c.where(n, f), norm(v))
+        c.guard('C31.prev-prereq', n, ['tdef.sequential'], f)
+        # registered among the task's prerequisites under its own hash
+        regs = [s for s in nodes if isinstance(s, ast.Assign) and isinstance(
+            s.targets[0], ast.Subscript) and isinstance(s.value, ast.Name)
+            and norm(s.targets[0].slice) ==
+            f'{s.value.id}.instantaneous_hash()'
+            and c.holds(s, 'tdef.sequential')]
+        c.floor('C31.prev-prereq', 'implicit prerequisite registered under '
+                'its hash', len(regs), 1)
+        if c.idx.owner(n) is ap:
+            c.post('C31.prev-prereq', ap, n, lambda s, cv=cvar: isinstance(
+                s, ast.Assign) and norm(s.targets[0]) ==
+                f'prerequisites[{cv}.instantaneous_hash()]' and norm(
+                s.value) == cv, 'registered in prerequisites')
+        # the point is the latest previous point over all sequences
+        pdef = value_of(pvar, n)
+        ok = isinstance(pdef, ast.Call) and norm(pdef.func) == 'max' and \
+            len(pdef.args) == 1
+        c.ob('C31.prev-prereq', c.key(n, f)[:100] + f' {pvar} = max(previous '
+             'points)', ok, c.where(n, f), norm(pdef) if pdef is not None
+             else 'no single definition')
+        if ok:
+            lst = pdef.args[0]
+            lname = lst.id if isinstance(lst, ast.Name) else None
+            c.guard('C31.prev-prereq', n, [norm(lst)], f,
+                    what='only when there is a previous point;')
+            srcs = [x for x in c.idx.walk(f.node) if isinstance(x, ast.Call)
+                    and isinstance(x.func, ast.Attribute)
+                    and x.func.attr == 'get_nearest_prev_point'
+                    and [norm(a) for a in x.args] == ['point']]
+            c.exactly('C31.prev-prereq', 'get_nearest_prev_point(point)',
+                      len(srcs), 1)
+            for x in srcs:
+                its = set()
+                cur = x
+                while id(cur) in c.idx.parent and cur is not f.node:
+                    cur = c.idx.parent[id(cur)]
+                    if isinstance(cur, ast.For):
+                        its.add((norm(cur.target), norm(cur.iter)))
+                    elif isinstance(cur, (ast.ListComp, ast.GeneratorExp)):
+                        its |= {(norm(g.target), norm(g.iter))
+                                for g in cur.generators}
+                c.ob('C31.prev-prereq', c.key(x, f)[:100] + ' over all '
+                     'sequences', (norm(x.func.value), 'tdef.sequences')
+                     in its, c.where(x, f), str(sorted(its)))
+            if lname:
+                fills = [x for x in c.idx.walk(f.node) if isinstance(
+                    x, ast.Call) and isinstance(x.func, ast.Attribute)
+                    and x.func.attr == 'append' and norm(
+                        x.func.value) == lname]
+                for x in fills:
+                    c.guard('C31.prev-prereq', x, [norm(x.args[0])], f,
+                            what='missing previous points are skipped;')
     fin = [n for n in c.idx.walk(ap.node) if isinstance(n, ast.Assign)
            and norm(n.targets[0]) == 'self.prerequisites']
     c.ob('C31.prev-prereq', f'{ap.fq} :: self.prerequisites = all collected',
@@ -66,15 +108,48 @@ def check(c):
          'list(prerequisites.values())', c.where(ap.node, ap), '')
 
     gc = c.func('taskdef', 'generate_graph_children')
+    # the next-instance child: TaskTuple(own name, <earliest next point>,
+    # False) under :succeeded, only when there is a next point
     ch = [n for n in c.calls(gc, 'append') if c.find(
-        n, 'TaskTuple(tdef.name, min(nexts), False)')]
+        n, 'TaskTuple(tdef.name, _, False)')]
     c.exactly('C31.next-child', 'next-instance child', len(ch), 1)
+    lists = set()
     for n in ch:
-        c.guard('C31.next-child', n, ['tdef.sequential', 'nexts'], gc)
+        c.guard('C31.next-child', n, ['tdef.sequential'], gc)
         ok = bool(c.find(n.func, 'graph_children.setdefault('
                          'TASK_OUTPUT_SUCCEEDED, [])'))
         c.ob('C31.next-child', c.key(n, gc)[:100] + ' under :succeeded', ok,
              c.where(n, gc), '')
+        tt = c.find(n, 'TaskTuple(tdef.name, _, False)')[0]
+        e = tt.args[1]
+        vals = [e]
+        if isinstance(e, ast.Name):
+            vals = [d.value for d in c.idx.walk(gc.node)
+                    if isinstance(d, ast.Assign)
+                    and norm(d.targets[0]) == e.id] or [e]
+        flat = []
+        while vals:
+            v = vals.pop()
+            if isinstance(v, ast.IfExp):
+                vals += [v.body, v.orelse]
+            else:
+                flat.append(v)
+        vals = flat
+        mins = [v for v in vals if isinstance(v, ast.Call)
+                and norm(v.func) == 'min' and len(v.args) == 1]
+        others = [v for v in vals if v not in mins and norm(v) != 'None']
+        c.ob('C31.next-child', c.key(n, gc)[:100] + ' at the earliest next '
+             'point', bool(mins) and not others, c.where(n, gc),
+             str([norm(v) for v in vals]))
+        for m in mins:
+            lists.add(norm(m.args[0]))
+        guards = [norm(m.args[0]) for m in mins]
+        if isinstance(e, ast.Name) and len(vals) > 1:
+            guards = [f'{e.id} is not None']
+        if not guards:
+            guards = ['_never_']
+        c.guard('C31.next-child', n, guards[:1], gc,
+                what='only when a next point exists;')
     # `nexts` = the next point of every sequence of the task, None dropped;
     # as a loop with append or as a comprehension, whatever the names
     nps = c.find(gc, '_.get_next_point(point)')
@@ -97,7 +172,7 @@ def check(c):
              f'{sorted(srcs)}')
         c.guard('C31.next-child', n, ['tdef.sequential'], gc)
     # every way a value gets into `nexts` drops None
-    adds = [a for a in c.calls(gc, 'append') if norm(a.func.value) == 'nexts']
+    adds = [a for a in c.calls(gc, 'append') if norm(a.func.value) in lists]
     for a in adds:
         c.guard('C31.next-child', a, [f'{norm(a.args[0])} is not None'], gc)
         defs = [d for d in c.idx.walk(gc.node) if isinstance(d, ast.Assign)
@@ -106,7 +181,7 @@ def check(c):
              any(d.value is n for d in defs for n in nps) or any(
                  a.args[0] is n for n in nps), c.where(a, gc), '')
     comps = [n for n in c.idx.walk(gc.node) if isinstance(n, ast.Assign)
-             and norm(n.targets[0]) == 'nexts' and isinstance(
+             and norm(n.targets[0]) in lists and isinstance(
                  n.value, (ast.ListComp, ast.SetComp))]
     for n in comps:
         g = n.value
